@@ -938,13 +938,20 @@ func (tr *Tr) cutLoopEntry(fr *Frame, li *loopInfo, st *State, entryPhis map[*ss
 	nt := tr.freshSym("top", false)
 	tr.sc.factLocal(sLe(st.top, nt))
 	hst.top = nt
-	for name, mi := range mods {
+	for _, name := range sortedKeys(mods) {
+		mi := mods[name]
 		if mi.sort != "" {
 			tr.symTop[hst.vars[name].(Sc).T] = nt
 			tr.heapVersionAxiom(name, hst.vars[name].(Sc).T, mi.sort, nt, true)
 		}
 	}
+	// deterministic order (the generated script is the key of the answer cache)
+	var phis []*ssa.Phi
 	for p := range entryPhis {
+		phis = append(phis, p)
+	}
+	sort.Slice(phis, func(i, j int) bool { return phis[i].Name() < phis[j].Name() })
+	for _, p := range phis {
 		fr.vals[p] = tr.freshValue(p.Type(), phiName(p), hst)
 	}
 	if li.enum != nil {
